@@ -40,6 +40,10 @@ def name_subst(n, env, kind):
 
 def e_subst(e, env):
     t = e[0]
+    if t == "ident":
+        if e[1] in env and env[e[1]][0] == "expr":
+            return env[e[1]][1]
+        return e
     if t == "var":
         if e[1] in env:
             k, v = env[e[1]]
@@ -175,8 +179,8 @@ def shapes(tier):
     for a in EXPR_ARGS[:4]:
         add(me2, ["mp"], (("call", "mp", (a,)),))
     # 3b. expr arguments whose meaning depends on the assignment target (enum constant, bool)
-    mt = {"setv": ((("expr", "which"),), (("match", L("a")), ("set", "e", ("var", "which")), ("hook", "h"))),
-          "setf": ((("expr", "w"),), (("match", L("a")), ("set", "f", ("var", "w")), ("set", "n", ("var", "w")), ("hook", "h")))}
+    mt = {"setv": ((("expr", "which"),), (("match", L("a")), ("set", "e", ("ident", "which")), ("hook", "h"))),
+          "setf": ((("expr", "w"),), (("match", L("a")), ("set", "f", ("ident", "w")), ("set", "n", ("ident", "w")), ("hook", "h")))}
     for a in (("enum", "B"), ("enum", "C")):
         add(mt, ["setv"], (("call", "setv", (a,)), ("match", L("d"))))
     for a in (("bool", 1), ("bool", 0)):
